@@ -56,7 +56,10 @@ RULE = ('Hypothesis-generated cases: 1-6 static-registration files forming an in
         'optionally one file is unreadable everywhere (decoys '
         'only) and one statement targets an unknown configurable/module; entry point in '
         '{parse_config, parse_config_file, parse_config_files_and_bindings (0-3 files, extra '
-        'bindings, finalize_config default/False/True)} x skip_unknown {not passed, True, False}; '
+        'bindings, finalize_config default/False/True)} x skip_unknown {not passed, True, False, '
+        'a list / tuple / set of names}; up to two statements on unknown names (a configurable the '
+        'collection lists, one it does not list, an unknown module) in the root or in files '
+        'included at any depth; '
         'finalize_config / skip_unknown are omitted, passed by keyword or passed positionally '
         '(third / fourth argument of the multi-file entry point, second of the other two); '
         'optionally an already registered reader (a custom one, or the package reader that '
@@ -85,6 +88,9 @@ ASSUMPTIONS = [
     'check ran exactly once and saw the final config, and a further bind_parameter is refused; '
     'this also holds when there is nothing to parse (no files, no bindings)',
     'static registration only (dynamic-registration files belong to C19)',
+    'skip_unknown given as a list / tuple / set of names means the same in an included file as in '
+    'the flattened text: a listed unknown configurable is skipped, an unlisted one raises; unknown '
+    'imports under a collection are not generated (C15)',
     'a search location given as pathlib.Path behaves like the same location given as str',
     'include targets are resolved like any other name (cwd, then the registered locations), '
     'never relative to the directory of the including file',
@@ -135,7 +141,9 @@ FLOORS = {
     'reparse:earlier-copy-appeared,direct': 0.01, 'reparse:earlier-copy-appeared,included': 0.02,
     'reparse:earlier-copy-appeared,entry-multi': 0.005,
     'reparse:earlier-copy-appeared,after-clear_config': 0.01, 'reparse:winner-deleted': 0.008,
-    'rereg:order-sensitive': 0.01, 'location:pathlib.Path': 0.2,
+    'rereg:order-sensitive': 0.01, 'unknown:unlisted-name,included-file': 0.01,
+    'unknown:listed-name,included-file': 0.01, 'unknown:unlisted-name,top': 0.01,
+    'location:pathlib.Path': 0.2,
     'beside:copy-next-to-includer,shadowing': 0.02, 'beside:copy-next-to-includer,only-copy': 0.004,
     'name:mod': 0.05,
     'retry:ok,after-unknown': 0.02, 'retry:ok,after-missing': 0.03,
@@ -194,6 +202,10 @@ SCOPES = ['', 's/']
 MODULES = [('math', None), ('json', 'c14j'), ('string', None), ('collections.abc', None),
            ('os.path', None), ('textwrap', 'c14tw'), ('fractions', None), ('bisect', None)]
 UNKNOWN_MODULE = 'c14_no_such_module'
+# how skip_unknown is passed; the collections list c14_nosuch (and names never used), not c14_typo
+SKIP_VALUES = {'default': False, 'false': False, 'true': True,
+               'list': ['c14_nosuch'], 'tuple': ('c14_other', 'c14_nosuch'),
+               'set': {'c14_nosuch', 'c14_other'}}
 # A namespace package (no __init__.py anywhere) spread over three sys.path entries (tmp/site0..2).
 NS_PKG = 'c14ns.cfg'
 NS_SITES = 3
@@ -221,7 +233,7 @@ def _file():
   place = st.tuples(st.integers(0, 4), st.integers(0, 5),
                     st.sampled_from([False, False, False, True])).map(list)
   return st.fixed_dictionaries({
-      'kind': st.sampled_from(['rel', 'rel', 'sub', 'sub', 'abs', 'pkg', 'ns', 'mod']),
+      'kind': st.sampled_from(['rel', 'rel', 'sub', 'sub', 'abs', 'abs', 'pkg', 'ns', 'mod']),
       'beside': st.booleans(),
       'parent': st.sampled_from([0, 0, 1, 2, 3]),
       'at': _small,
@@ -232,7 +244,7 @@ def _file():
   })
 
 
-_unknown = st.fixed_dictionaries({'file': _small, 'at': _small, 'form': st.integers(0, 2)})
+_unknown = st.fixed_dictionaries({'file': _small, 'at': _small, 'form': st.integers(0, 4)})
 
 
 def strategy():
@@ -240,7 +252,9 @@ def strategy():
       lambda n: st.lists(_file(), min_size=n, max_size=n))
   return st.fixed_dictionaries({
       'entry': st.sampled_from(['config', 'file', 'multi']),
-      'skip': st.sampled_from(['default', 'default', 'true', 'true', 'false']),
+      'skip': st.sampled_from(['default', 'default', 'true', 'true', 'false', 'list', 'tuple',
+                               'set']),
+      'unknown2': st.one_of(st.none(), st.none(), st.none(), _unknown),
       'finalize': st.sampled_from(['default', 'default', 'false', 'true']),
       'roots': st.sampled_from([0, 1, 1, 2, 2, 3]),
       'eform': st.integers(0, 8),
@@ -298,7 +312,9 @@ class Model:
     self.retry_ok = retry_of is not None
     self.mutate = mutate           # {'file': j, 'op': 0 add an earlier copy | 1 delete the winner}
     self.mutation = None           # the concrete file-system / reader-store action, if possible
-    self.skip_passed = case['skip'] == 'true' or retry_of == 'unknown'
+    # skip_unknown as passed: True/False, or a list / tuple / set of configurable names
+    self.skip_value = True if retry_of == 'unknown' else SKIP_VALUES[case['skip']]
+    self.collection = not isinstance(self.skip_value, bool)
     files = case['files']
     n = self.n = len(files)
     self.nroots = min(case['roots'], n) if self.entry == 'multi' else 1
@@ -358,11 +374,26 @@ class Model:
       else:
         w = unk['file'] % n
       target = self.items[w] if w < n else self.binding_items
-      target.insert(unk['at'] % (len(target) + 1), ['unk', unk['form']])
+      target.insert(unk['at'] % (len(target) + 1), ['unk', self._unk_form(unk['form'])])
+    unk = case.get('unknown2')
+    if unk is not None:             # a second one, in any file reached or not
+      target = self.items[unk['file'] % n]
+      target.insert(unk['at'] % (len(target) + 1), ['unk', self._unk_form(unk['form'])])
     self.missing = None if case['missing'] is None else case['missing'] % n
     if self.entry == 'config' and self.missing == 0:
       self.missing = None          # the root is a string, not a file
     self._plan()
+
+  def _unk_form(self, form):
+    # with a collection of names, unknown IMPORTS are outside this property (C15): use an
+    # unlisted configurable instead
+    return 3 if form == 2 and not isinstance(SKIP_VALUES[self.case['skip']], bool) else form
+
+  def skips(self, form):
+    """Is the unknown-name statement of that form skipped under the skip_unknown passed?"""
+    if isinstance(self.skip_value, bool):
+      return self.skip_value
+    return form in (0, 1)          # names the collection lists; forms 3, 4 are not listed
 
   # ---- placement ------------------------------------------------------------------------
   def _plan(self):
@@ -592,7 +623,8 @@ class Model:
       q = '"' if (idx + item[1]) % 2 else "'"
       return f'include {q}{self.names[item[1]]}{q}'
     if kind == 'unk':
-      return ['c14_nosuch.x = 1', 's/c14_nosuch.y = [1, 2]', f'import {UNKNOWN_MODULE}'][item[1]]
+      return ['c14_nosuch.x = 1', 's/c14_nosuch.y = [1, 2]', f'import {UNKNOWN_MODULE}',
+              'c14_typo.x = 1', 's/t/c14_typo.rate = 0.5'][item[1]]
     raise AssertionError(item)
 
   def _effective_items(self, i):
@@ -714,9 +746,16 @@ class Model:
         self.labels.add('unknown:in-included-file' if len(self.stack) > 1 else 'unknown:top')
         if i == 'B':
           self.labels.add('unknown:in-extra-bindings')
-          if self.skip_passed:
+          if self.skips(item[1]):
             self.labels.add('unknown:in-extra-bindings,skipped')
-        if not self.skip_passed:
+        if self.collection:
+          where = 'included-file' if len(self.stack) > 1 else 'top'
+          self.labels.add(f'unknown:{"listed" if self.skips(item[1]) else "unlisted"}-name,'
+                          f'{where}')
+          if len(self.stack) > 2:
+            self.labels.add(f'unknown:{"listed" if self.skips(item[1]) else "unlisted"}-name,'
+                            'included-at-depth>=2')
+        if not self.skips(item[1]):
           raise _Fault('unknown', i)
         self.labels.add('unknown:skipped')
       elif kind == 'i':
@@ -866,6 +905,11 @@ def _namespace_dir_consulted(m):
   return False
 
 
+def _skip_arg(skip):
+  v = SKIP_VALUES[skip]
+  return v if isinstance(v, bool) else type(v)(v)     # a fresh list / tuple / set per call
+
+
 def _multi_args(fin, skip, style):
   """Arguments after (config_files, bindings) of the multi-file entry point, whose documented
   signature continues (finalize_config=True, skip_unknown=False).  style 0: keywords only;
@@ -883,10 +927,10 @@ def _multi_args(fin, skip, style):
   else:
     how.append('finalize-omitted')
   if skip_pos:
-    pos.append(skip == 'true')
+    pos.append(_skip_arg(skip))
     how.append('skip-positional')
   elif skip != 'default':
-    kw['skip_unknown'] = skip == 'true'
+    kw['skip_unknown'] = _skip_arg(skip)
     how.append('skip-keyword')
   else:
     how.append('skip-omitted')
@@ -950,10 +994,10 @@ def _make_call(m, case, skip, wrap=False):
     pos, kw = [], {}
     if skip != 'default':
       if style:
-        pos = [skip == 'true']
+        pos = [_skip_arg(skip)]
         labels.add('args:skip-positional')
       else:
-        kw['skip_unknown'] = skip == 'true'
+        kw['skip_unknown'] = _skip_arg(skip)
   if entry == 'config':
     root_text = m._render(0, 'root')     # pylint: disable=protected-access
     call = lambda: gin.parse_config(root_text, *pos, **kw)
@@ -1102,7 +1146,7 @@ def _check(case, tmp):
   # ---- reference: a fresh fork of the pristine process parses the flattened text ----------
   ref_cs = None
   if fault is None or fault.kind == 'missing':
-    ref_cs = _reference_cs(flat_text, m.skip_passed)
+    ref_cs = _reference_cs(flat_text, m.skip_value)
   # the failed call is repeated (after creating the file / with skip_unknown=True): what must
   # the repetition yield?  Whatever the failed call applied is a prefix of the same statements,
   # so the result is that of the complete flattened text alone.
@@ -1113,7 +1157,7 @@ def _check(case, tmp):
       lines2, trees2, fault2, _ = m2.flatten()
       text2 = '\n'.join(lines2) + '\n'
       retry = {'m': m2, 'trees': trees2, 'fault': fault2, 'text': text2,
-               'ref': _reference_cs(text2, m2.skip_passed) if fault2 is None else None}
+               'ref': _reference_cs(text2, m2.skip_value) if fault2 is None else None}
   # a successful call, then the places change, then the same call again: every name is searched
   # afresh in the order registered.  All variants of a file bind the same keys, so the second
   # call leaves the config of ITS flattened text (with or without a clear_config in between).
@@ -1131,7 +1175,7 @@ def _check(case, tmp):
       if fault3 is None:
         text3 = '\n'.join(lines3) + '\n'
         reparse = {'m': m3, 'trees': trees3, 'text': text3,
-                   'ref': _reference_cs(text3, m3.skip_passed)}
+                   'ref': _reference_cs(text3, m3.skip_value)}
 
   # ---- real side: materialise, register, call ---------------------------------------------
   _materialise(m)
